@@ -156,12 +156,12 @@ inductive Op
   | sort (a : Nat) (axis : Option Int) (kind : Sort.KindArg) | argsort (a : Nat) (axis : Option Int) (kind : Sort.KindArg)
   | unique (a : Nat) (axis : Option Int)
   -- elementwise math (`math/operations/*.rs`, `binary.rs`)
-  | unary (a : Nat) | binary (p : BinPat) (a b : Nat) | clip (a lo hi : Nat)
+  | unary (a : Nat) | logE (a : Nat) | rint (a : Nat) | round (a d : Nat) | binary (p : BinPat) (a b : Nat) | clip (a lo hi : Nat)
   -- products (`products.rs`)
   | vdot (a b : Nat) | outer (a b : Nat) | inner (a b : Nat) | matmul (a b : Nat) | dot (a b : Nat)
   -- bits (`binary_bits.rs`)
-  | unpackBits (a : Nat) (axis : Option Int) (count : Option Int) (little : Bool)
-  | packBits (a : Nat) (axis : Option Int) (little : Bool)
+  | unpackBits (a : Nat) (axis : Option Int) (count : Option Int) (order : List Char)
+  | packBits (a : Nat) (axis : Option Int) (order : List Char)
   -- operator overloads (`ops.rs`)
   | operator (k : OpKind) (a b : Nat)
   -- an unmodelled call: only what it returned is known
@@ -188,7 +188,8 @@ def OpKind.run (k : OpKind) (a b : A) : Res A :=
   | .bitAssign => C20.bitAssign (· + ·) a b
   | .bitAssignScalar => C20.bitAssignScalar (· + ·) a 1
 
-def order (little : Bool) : C19.BitOrder := if little then .little else .big
+/-- `round(decimals)` (`rounding.rs:133-142`): `broadcast_h2`, zip, `Self::new(elements, array.get_shape()?)` -/
+def roundLike (a d : A) : Res A := a.broadcastH2 0 d >>= fun p => Arr.new p.1.elems p.1.shape
 
 def Ext.run : Ext → Val
   | .arr shape => ofRes (tagArr shape)
@@ -280,6 +281,9 @@ def eval (s : Store) : Op → Val
   | .argsort a axis kind => with1 s a fun a => ofRes ((Sort.argsort Sort.Cmp.int 0 a axis kind).map ofNatArr)
   | .unique a axis => with1 s a fun a => ofRes (Sort.unique Sort.Cmp.int 0 a axis)
   | .unary a => with1 s a fun a => ofRes (Iter.unary (fun x => x + 1) a)
+  | .logE a => with1 s a fun a => ofRes (BinPat.B.run a (Arr.single 0))
+  | .rint a => with1 s a fun a => ofRes (roundLike a (Arr.single 0))
+  | .round a d => with2 s a d fun a d => ofRes (roundLike a d)
   | .binary p a b => with2 s a b fun a b => ofRes (p.run a b)
   | .clip a lo hi => with3 s a lo hi fun a lo hi => ofRes (C04.clipLike (fun x l h => max l (min x h)) a lo hi)
   | .vdot a b => with2 s a b fun a b => ofRes (C14.vdot a b)
@@ -287,10 +291,10 @@ def eval (s : Store) : Op → Val
   | .inner a b => with2 s a b fun a b => ofRes (C14.inner a b)
   | .matmul a b => with2 s a b fun a b => ofRes (C14.matmul a b)
   | .dot a b => with2 s a b fun a b => match C14.dot a b with | some r => ofRes r | none => .skip
-  | .unpackBits a axis count little => with1 s a fun a =>
-      ofRes ((C19.unpackBits C19.alongPipe (toNatArr a) axis count (some (.enum (order little)))).map ofNatArr)
-  | .packBits a axis little => with1 s a fun a =>
-      ofRes ((C19.packBits C19.alongPipe (toNatArr a) axis (some (.enum (order little)))).map ofNatArr)
+  | .unpackBits a axis count order => with1 s a fun a =>
+      ofRes ((C19.unpackBits C19.alongPipe (toNatArr a) axis count (some (.text order))).map ofNatArr)
+  | .packBits a axis order => with1 s a fun a =>
+      ofRes ((C19.packBits C19.alongPipe (toNatArr a) axis (some (.text order))).map ofNatArr)
   | .operator k a b => with2 s a b fun a b => ofRes (k.run a b)
   | .extern e => e.run
 
